@@ -22,8 +22,8 @@ META = dict(
          "distinct by (dtype,qtype,entry,axis,recipe,shape,layout)",
     exhaustive_note="all finite float16 (63488) and bfloat16 (65280) bit patterns are enumerated in every "
                     "(qtype, scale, axis) configuration of the run; scales are sampled",
-    assumptions=["torch widening casts to float64 are exact", "scales are finite positive normal numbers of the "
-                 "source dtype", "an element is judged only if its two neighbouring grid points are finite in the "
+    assumptions=["torch widening casts to float64 are exact", "scales are finite positive numbers of the source "
+                 "dtype, subnormal ones included", "an element is judged only if its two neighbouring grid points are finite in the "
                  "working dtype (C16 owns the extremes)"],
 )
 
@@ -55,10 +55,15 @@ def scalar_scales(rng, V, wd, storage, n_rand):
         m = 1.0 + float(rng.random())
         k = int(rng.integers(emin + 1, min(emax - 7, 40)))
         out.append((f"rand{i}", m * 2.0 ** k))
+    # subnormal scales are finite positive scales too (their reciprocal overflows the dtype)
+    tiny = fi.smallest_normal * fi.eps
+    for name, s in (("subnormal_min", tiny), ("subnormal_3x", 3 * tiny), ("subnormal_mid", fi.smallest_normal / 8),
+                    ("subnormal_big", fi.smallest_normal * (1 - fi.eps))):
+        out.append((name, s))
     res = []
     for name, s in out:
         sv = torch.tensor(s, dtype=F64).to(wd)
-        if torch.isfinite(sv) and float(sv) >= fi.smallest_normal:
+        if torch.isfinite(sv) and float(sv) > 0:
             res.append((name, sv))
     return res
 
@@ -146,8 +151,15 @@ def per_axis_scales(rng, n, wd, lo_e, hi_e):
     """n distinct tagged scales: random mantissas, exponents spread over [lo_e, hi_e]."""
     e = rng.integers(lo_e, hi_e + 1, size=n)
     m = 1.0 + rng.random(n)
-    s = torch.tensor(m * 2.0 ** e, dtype=F64).to(wd)
-    return s
+    s = torch.tensor(m * 2.0 ** e, dtype=F64)
+    # a few channels get subnormal scales (only those channels may be affected by a defect there)
+    fi = torch.finfo(wd)
+    k = max(1, n // 24)
+    idx = rng.choice(n, size=k, replace=False)
+    s[idx] = torch.tensor(fi.smallest_normal * rng.uniform(fi.eps, 1.0, size=k), dtype=F64)
+    s = s.to(wd)
+    tiny = torch.tensor(fi.smallest_normal * fi.eps, dtype=F64).to(wd)
+    return torch.where(s > 0, s, tiny)
 
 
 def run(ctx):
@@ -198,7 +210,7 @@ def run(ctx):
     # float32: boundary-directed and random
     wd = torch.float32
     for qtn, storage in STORAGE.items():
-        srs = [2.0 ** e for e in (-100, -20, -7, 0, 5, 60)] + [0.0123, 3.7, 1e-3, 1234.5]
+        srs = [2.0 ** e for e in (-100, -20, -7, 0, 5, 60)] + [0.0123, 3.7, 1e-3, 1234.5, 1e-40, 2.0 ** -149, 2e-39]
         srs += list(gen.loguniform(rng, 1e-30, 1e25, size=24 if thorough else 6))
         rows_x, rows_s = [], []
         for s in srs:
